@@ -528,7 +528,8 @@ def run(tier, only=None):
     # the wNAF recoders themselves (branch-free integer code)
     from engines.polyid.recoders import NAFS, native_recoder_check, scalar_order
     rec_meta = []
-    for c in names:
+    # the recoders of every curve are cheap: posed in both tiers (the loops of the other curves stay in the thorough tier)
+    for c in (names if only else list(ROUTINES)):
         for fn, spec in NAFS.get(c, {}).items():
             if fsel and fn not in fsel:
                 continue
